@@ -173,9 +173,17 @@ func (s *c06state) runCLITier() {
 		pagesNeeded := (len(ref.F) + 4095) / 4096
 		if pagesNeeded >= 2 && len(draws) > 0 {
 			pages := 1 + int(draws[(fi*7+3)%len(draws)]%uint64(pagesNeeded-1))
+			// the CLI's own build may be a few bytes shorter than the
+			// in-process one (salted key-file signatures): keep a margin so
+			// that the package can never fit
+			for pages >= 1 && len(ref.F)-pages*4096 < 512 {
+				pages--
+			}
 			mnt := filepath.Join(dir, "fulldisk")
 			os.MkdirAll(mnt, 0o755)
-			if err := syscall.Mount("tmpfs", mnt, "tmpfs", 0, fmt.Sprintf("size=%d", pages*4096)); err != nil {
+			if pages < 1 {
+				s.count("skipped.fulldisk_too_small", 1)
+			} else if err := syscall.Mount("tmpfs", mnt, "tmpfs", 0, fmt.Sprintf("size=%d", pages*4096)); err != nil {
 				s.count("skipped.tmpfs_mount_refused", 1)
 			} else {
 				oldTarget := target
